@@ -134,6 +134,8 @@ pub struct Tables {
     pub flush: Vec<u16>,
     /// non-flush hands by ascending-sorted rank tuple r0<<16|r1<<12|r2<<8|r3<<4|r4 (r0<=..<=r4)
     pub nonflush: Vec<u16>,
+    /// one representative five-card hand (ascending card indexes) per ordinal ([0] unused)
+    pub rep: Vec<[u8; 5]>,
 }
 
 static TABLES: OnceLock<Tables> = OnceLock::new();
@@ -163,12 +165,14 @@ fn build_tables() -> Tables {
     let mut class_size = vec![0u32; keys.len() + 1];
     let mut flush = vec![0u16; 8192];
     let mut nonflush = vec![0u16; 1 << 20];
+    let mut rep = vec![[0u8; 5]; keys.len() + 1];
     let mut i = 0;
     for_each_subset::<5>(52, |c| {
         let k = all[i];
         i += 1;
         let o = ord_of(k);
         class_size[o as usize] += 1;
+        rep[o as usize] = [c[0] as u8, c[1] as u8, c[2] as u8, c[3] as u8, c[4] as u8];
         let ranks = [c[0] / 4, c[1] / 4, c[2] / 4, c[3] / 4, c[4] / 4].map(|x| x as u32);
         let s0 = c[0] % 4;
         let fl = c.iter().all(|x| x % 4 == s0);
@@ -179,7 +183,7 @@ fn build_tables() -> Tables {
             nonflush[tuple_index(ranks)] = o;
         }
     });
-    Tables { keys, class_size, flush, nonflush }
+    Tables { keys, class_size, flush, nonflush, rep }
 }
 
 /// Enumerate all K-subsets of 0..n ascending (lexicographic), calling f with the index tuple.
